@@ -203,10 +203,35 @@ def run(ctx):
             before = s["node"] not in pg.reach([pg.entry()], oks)
             after_reach = pg.reach_after(s["node"], oks | err_all)
             after = not any(r in after_reach for r in pg.returns())
+            res.__dict__.setdefault("orders", []).append({"function": f.path, "field": s["field"], "op": s["op"] + (("." + s["subfield"]) if s.get("subfield") else ""), "order": "precedes" if before else ("follows" if after else "unpaired"), "span": s["span"], "fn": f})
             if before or after:
                 res.ok({"function": f.path, "store": "%s %s" % (s["field"], s["op"] + (("." + s["subfield"]) if s.get("subfield") else "")), "pairing": cands[0][1], "write": cands[0][0].name.split("::")[-1], "order": "write precedes" if before else "write follows on every Ok path"}, nontrivial=True)
             else:
                 p = pg.path(s["node"], [r for r in pg.returns() if r in after_reach], oks | err_all)
                 res.fail(Finding("R-WT", key + "/write-not-on-all-paths", "mirror %s is changed (%s) but an Ok path reaches return without the paired write (%s)" % (s["field"], s["op"], cands[0][1]), f, s["span"], path=pg.fmt_path(p) if p else None))
     res.floor("mirror store sites", n, ctx.table("floors").get("wt_sites", 0))
+    return res
+
+
+def order(ctx):
+    """R-WTORDER (C13): cells of the FAT / MiniFAT (and the MiniFAT start) are written to the file only when they
+    change, and a retried operation walks the chains through the in-memory tables.  A cell updated in memory
+    before its file write would, after a failed write, never be written again - so the file write comes first."""
+    base = ctx.__dict__.get("_wt_result")
+    if base is None:
+        base = ctx.__dict__["_wt_result"] = run(ctx)
+    tbl = ctx.table("wt")
+    first = tbl.get("disk_first", {})
+    res = RuleResult("R-WTORDER", "for tables whose cells are written only on change (FAT, MiniFAT, MiniFAT start) the file write precedes the in-memory update at every store site: a failed write leaves memory no further than the file, so a retried flush writes the cell again")
+    n = 0
+    for o in getattr(base, "orders", []):
+        if o["field"] not in first:
+            continue
+        n += 1
+        key = "R-WTORDER/%s/%s/%s" % (o["function"], o["field"], o["op"])
+        if o["order"] == "precedes":
+            res.ok({"function": o["function"], "store": o["field"] + " " + o["op"], "order": "file write first"}, nontrivial=True)
+        else:
+            res.fail(Finding("R-WTORDER", key + "/memory-updated-before-file", "%s is updated in memory (%s) before the matching file write: if that write fails the call reports the error, but a retry finds the cell already set in memory and never writes it, so a later flush returns Ok for data the file does not link (%s)" % (o["field"], o["op"], first[o["field"]]), o["fn"], o["span"]))
+    res.floor("write-on-change store sites", n, ctx.table("floors").get("wtorder_sites", 0))
     return res
